@@ -229,6 +229,36 @@ func orcTrigger(s *orcStep, prop string) string {
 			return "move-into-container-inherited-from-base-board"
 		}
 	}
+	// --- a new connection parallel to an existing one ------------------------------------
+	if c.Kind == "create" && k.Edge {
+		si, di := pre.findObj(k.Src), pre.findObj(k.Dst)
+		for _, e := range pre.Edges {
+			if si >= 0 && e.Src == si && e.Dst == di && e.SrcArrow == k.SrcArrow && e.DstArrow == k.DstArrow {
+				// _set appends the new connection to the map of the common container, which may lie
+				// above an existing parallel connection declared elsewhere: indices are reassigned
+				return "create-of-connection-parallel-to-existing-one"
+			}
+		}
+	}
+	// --- label.near / icon.near vs near ---------------------------------------------------
+	if c.Kind == "delete" && t >= 0 && len(k.Attr) >= 1 && k.Attr[len(k.Attr)-1] == "near" {
+		_, lp := orcGet(pre.Objs[t].Attrs, "labelPosition")
+		_, ip := orcGet(pre.Objs[t].Attrs, "iconPosition")
+		n := 0
+		if pre.Objs[t].NearRaw != "" {
+			n++
+		}
+		if lp {
+			n++
+		}
+		if ip {
+			n++
+		}
+		if n >= 2 || (len(k.Attr) == 2 && pre.Objs[t].NearRaw != "") {
+			// deleteMapField("near") removes every key named near: `near`, `label.near`, `icon.near`
+			return "delete-of-near-attribute-while-another-near-exists"
+		}
+	}
 	// --- attribute deletes that the API does not implement ----------------------------
 	if c.Kind == "delete" {
 		a := k.Attr
@@ -282,6 +312,16 @@ func orcTrigger(s *orcStep, prop string) string {
 		return "connection-label-declared-by-label-key"
 	}
 	// --- connections -------------------------------------------------------------------
+	if te >= 0 && c.Kind == "delete" && len(k.EdgeAttr) == 2 && (k.EdgeAttr[0] == "source-arrowhead" || k.EdgeAttr[0] == "target-arrowhead") {
+		other := pre.Edges[te].DstHead
+		if k.EdgeAttr[0] == "target-arrowhead" {
+			other = pre.Edges[te].SrcHead
+		}
+		if v, ok := orcScalar(other, k.EdgeAttr[1]); ok && v != "" {
+			// deleteMapField(field) removes `field` from every arrowhead map / flat arrowhead key
+			return "delete-of-arrowhead-attribute-that-the-other-arrowhead-also-has"
+		}
+	}
 	if te >= 0 {
 		e := pre.Edges[te]
 		if c.Kind == "set" || c.Kind == "delete" {
